@@ -290,6 +290,38 @@ func c09Foreign(c *core.Ctx, r *core.Rng) {
 		arg = &ro.s
 	}
 	nested := r.Chance(1, 3) || structural
+	if roIsCond && r.Chance(1, 2) {
+		// the read-only Condition in slot 0 of a writable parent that also holds a removable envelope: exactly where the
+		// structure-rewriting calls of the parent look (and write)
+		parent := stackage.And().Push(arg, stackage.And().Push(stackage.Or().Push("x", "y")), "tail")
+		if r.Bool() {
+			parent.SetMutex()
+		}
+		s0 := ro.take()
+		call := []string{"Reveal", "Defrag", "Reveal+Reveal", "String+Reveal"}[r.Intn(4)]
+		desc := map[string]any{"role": "slot 0 of a writable parent with a removable envelope", "read_only": "Condition " + ro.desc, "form": formName, "call": call}
+		if p, msg, site := Guard(func() {
+			switch call {
+			case "Reveal":
+				parent.Reveal()
+			case "Defrag":
+				parent.Defrag()
+			case "Reveal+Reveal":
+				parent.Reveal().Reveal()
+			default:
+				_ = parent.String()
+				parent.Reveal()
+			}
+		}); p && !strings.Contains(msg, userPanicText) {
+			c.Violatef("panic:foreign:"+call, desc, "%s on the parent panicked (%s): %s", call, site, msg)
+			return
+		}
+		c.Count("foreign.condition-in-slot-0")
+		if d := Diff(s0, ro.take(), DiffOpts{Shallow: true, Raw: true}); d != "" {
+			c.Violatef("foreign-changed:Condition:"+call, desc, "%s on the writable parent changed the read-only Condition in its slot 0: %s", call, d)
+		}
+		return
+	}
 	// the writable receiver
 	wIsCond := r.Chance(1, 4) && !nested
 	w := c09Build(r.U64(), wIsCond)
@@ -363,6 +395,66 @@ func c09Foreign(c *core.Ctx, r *core.Rng) {
 	c.NontrivialStr(fmt.Sprintf("foreign|%s|%s|%s|%s", role, roKind, formName, cs.Desc))
 }
 
+// c09Reassert: the flag is set and STAYS set - one goroutine keeps re-asserting it (SetReadOnly(true) / ReadOnly(true) on
+// an instance that already is read-only) while others keep offering changes. "While the read-only flag is set, no method
+// changes anything" has no gap in it for a setter that clears the bit on its way to setting it. The instances have their
+// mutex enabled; the verdict is taken after all goroutines have finished.
+func c09Reassert(c *core.Ctx, r *core.Rng) {
+	isCond := r.Chance(1, 4)
+	var before, after *Snap
+	desc := map[string]any{"receiver": "Stack"}
+	stackage.VerifSetHook(nil) // several goroutines: the single-goroutine lock watcher does not apply here
+	rounds := r.Range(200, 600)
+	var wg sync.WaitGroup
+	start := make(chan struct{})
+	run := func(f func(i int)) {
+		wg.Add(1)
+		go func() {
+			defer wg.Done()
+			<-start
+			for i := 0; i < rounds; i++ {
+				Guard(func() { f(i) })
+			}
+		}()
+	}
+	if isCond {
+		cd := stackage.Cond("kw", stackage.Eq, "value").SetReadOnly(true)
+		desc["receiver"] = "Condition"
+		before, _ = Take(cd)
+		run(func(i int) {
+			if i%2 == 0 {
+				cd.SetReadOnly(true)
+			} else {
+				cd.SetReadOnly(true).SetReadOnly(true)
+			}
+		})
+		run(func(i int) { cd.SetKeyword("changed"); cd.SetExpression(i); cd.SetParen(true); cd.SetID("x") })
+		run(func(i int) { cd.SetOperator(stackage.Ne); cd.SetEncap("'"); cd.SetNoPadding(true) })
+		close(start)
+		wg.Wait()
+		after, _ = Take(cd)
+	} else {
+		s := NewStack(Kinds[r.Intn(5)], 0).Push("a", "b", "c").SetMutex().SetReadOnly(true)
+		before, _ = Take(s)
+		run(func(i int) {
+			if i%2 == 0 {
+				s.SetReadOnly(true)
+			} else {
+				s.ReadOnly(true)
+			}
+		})
+		run(func(i int) { s.Push(i); s.SetID("changed"); s.SetFold(true); s.Pop() })
+		run(func(i int) { s.Insert("x", 0); s.SetParen(true); s.Replace("y", 1); s.SetSymbol("&") })
+		close(start)
+		wg.Wait()
+		after, _ = Take(s)
+	}
+	c.Count("re-asserted-while-hammered")
+	if d := Diff(before, after, DiffOpts{}); d != "" {
+		c.Violatef("changed-while-read-only-was-re-asserted:"+desc["receiver"].(string), desc, "the instance was read-only throughout (the flag was only ever set again, %d times), yet it changed: %s", rounds, d)
+	}
+}
+
 func c09Run(c *core.Ctx, idx int) {
 	single, _ := c09Tier(c.Tier)
 	r := c.Rng
@@ -380,6 +472,10 @@ func c09Run(c *core.Ctx, idx int) {
 		}
 		seed := core.Mix(uint64(c.Seed)+uint64(idx/((nS+nC)*c09Instances)), uint64(inst)*977+uint64(ci))
 		c09One(c, seed, isCond, []CallSpec{cs})
+		return
+	}
+	if idx%40 == 6 {
+		c09Reassert(c, r)
 		return
 	}
 	if idx%2 == 1 {
